@@ -91,7 +91,7 @@ check("C17",
       "DESIGN.md 5/C17")
 
 check("C09",
-      "The finite matrix decorator {asynq, asynq pure, async_proxy, asynq+sync_fn, async_proxy+sync_fn, make_async_decorator, deduplicate, aretry, alru_cache, acached_per_instance} x binding {function, via instance, via class, via subclass instance, classmethod, staticmethod} x signature {(x), (x, y=10), (x, *, z=20), (x, y=10, *, z=20)} x body {plain, generator with child yield, batch-blocking, raising} is built from generated source and enumerated exhaustively (every cell, two spellings, plus an instance whose __bool__ is False for the instance bindings; another instance of the same class always touches the attribute first), and Hypothesis additionally draws cells with generated argument values and positional/keyword/default spellings. Oracle: the undecorated body applied to the explicitly bound receiver and normalised arguments; sync call, .asynq().value(), yield from a task, async_call (both forms), get_async_fn(f)(...), get_async_or_sync_fn(f)(...) must all equal it (with sync_fn the sync call equals sync_fn's outcome); is_async_fn / is_pure_async_fn / has_async_fn must equal the cell's ground truth. One open known finding (F1, KNOWN_FINDINGS.txt).",
+      "The finite matrix decorator {asynq, asynq pure, async_proxy, asynq+sync_fn, async_proxy+sync_fn, make_async_decorator, deduplicate, aretry, alru_cache, acached_per_instance} x binding {function, via instance, via class, via subclass instance, classmethod, staticmethod} x signature {(x), (x, y=10), (x, *, z=20), (x, y=10, *, z=20)} x body {plain, generator with child yield, batch-blocking, raising} is built from generated source and enumerated exhaustively (every cell, two spellings, plus an instance whose __bool__ is False for the instance bindings; another instance of the same class always touches the attribute first), and Hypothesis additionally draws cells with generated argument values and positional/keyword/default spellings. Oracle: the undecorated body applied to the explicitly bound receiver and normalised arguments; sync call, .asynq().value(), yield from a task, async_call (both forms), get_async_fn(f)(...), get_async_or_sync_fn(f)(...) must all equal it (with sync_fn the sync call equals sync_fn's outcome); is_async_fn / is_pure_async_fn / has_async_fn must equal the cell's ground truth.",
       "Trusted: the generated source templates and the expected-outcome formula in harness/props/c09.py. Function-style wrappers are exercised on functions and instance methods only.",
       "exhaustive enumeration of a finite calling-convention matrix + property-based testing of argument spellings, differential against direct evaluation of the body",
       "DESIGN.md 5/C09")
